@@ -35,12 +35,23 @@ def _exc_class(marker: str, name: str):
     return cls
 
 
-ALT_NAMES = {"auth": ["BadCredentialsError", "UnauthorizedThing"], "forbid": ["PermissionProblem"],
-             "timeout": ["TIMEOUTError"], "connection": ["connection_reset"], "plain": ["Oops", "E"]}
+ALT_NAMES = {"auth": ["BadCredentialsError", "UnauthorizedThing", "AuthError"],
+             "forbid": ["PermissionProblem", "Forbidden"],
+             "timeout": ["TimeoutError", "TIMEOUTError", "Timeout"],
+             "connection": ["connection_reset", "ConnectionError"],
+             "plain": ["PermanentError", "RateLimitError", "ConcurrencyError", "ServerError", "Oops", "E"]}
 
 
 class _Obj:
     pass
+
+
+def srepr(v) -> str:
+    try:
+        r = repr(v)
+    except Exception as exc:  # noqa: BLE001 - e.g. ints beyond the str-conversion limit
+        r = f"<{type(v).__name__}: repr raises {type(exc).__name__}>"
+    return r if len(r) <= 120 else r[:100] + f"...({len(r)} chars)"
 
 
 def concretise(v: dict, rng: random.Random, alt: int):
@@ -76,7 +87,7 @@ def concretise(v: dict, rng: random.Random, alt: int):
 def build_http_like(x: dict, rng: random.Random, alt: int) -> BaseException:
     cls = _exc_class(x["marker"], x["name"])
     if alt and x["marker"] == "none" and x["name"] in ALT_NAMES:
-        nm = ALT_NAMES[x["name"]][alt % len(ALT_NAMES[x["name"]])]
+        nm = ALT_NAMES[x["name"]][(alt - 1) % len(ALT_NAMES[x["name"]])]
         cls = type(nm, (Exception,), {})
     args = () if x["arg"]["c"] == "absent" else (concretise(x["arg"], rng, alt),)
     e = cls(*args)
@@ -111,6 +122,16 @@ def build_sql(x: dict, rng: random.Random, alt: int) -> BaseException:
         e.sqlstate = x["acode"]["s"]
     elif a == "int":
         e.sqlstate = 40001
+    elif a == "bytes":
+        e.sqlstate = [b"40001", bytearray(b"08S01")][alt % 2]
+    elif a == "bytes_nonascii":
+        e.sqlstate = [b"\xff\xfe400", bytearray(b"4000\xe9"), b"\x80"][alt % 3]
+    elif a == "big":
+        e.sqlstate = [10 ** 5000, -(10 ** 4400), 2 ** 64][alt % 3]
+    elif a == "float":
+        e.sqlstate = [40001.0, float("nan"), float("inf")][alt % 3]
+    elif a == "list":
+        e.sqlstate = [["40001"], ("08S01",), {"28000"}][alt % 3]
     return e
 
 
@@ -140,7 +161,7 @@ def check(tier: str) -> Report:
                 "boto3": x_boto3.boto3_classifier, "redis": x_redis.redis_classifier,
                 "urllib3": x_urllib3.urllib3_classifier}
     rng = random.Random(seed() + 19)
-    alts = 3 if tier == "quick" else 8
+    alts = 4 if tier == "quick" else 8
     evaluations = 0
     cells: set = set()
     drift = 0
@@ -149,7 +170,7 @@ def check(tier: str) -> Report:
         which, x = case["cls"], case["x"]
         fn = fns[which]
         for alt in range(alts):
-            a = alt if alt < 2 else rng.randrange(0, 1000)
+            a = alt if alt < 3 else rng.randrange(0, 1000)
             exc = build_sql(x, rng, a) if which in ("sqlstate", "pyodbc") else build_http_like(x, rng, a)
             evaluations += 1
             try:
@@ -157,7 +178,7 @@ def check(tier: str) -> Report:
             except BaseException as err:  # noqa: BLE001
                 rep.add_violation("C19:classifier-raises", f"C19/{which}/raises/{type(err).__name__}",
                                   {"classifier": which, "abstract": x, "exception_class": type(exc).__name__,
-                                   "attrs": {k: repr(v) for k, v in vars(exc).items()}, "args": repr(exc.args),
+                                   "attrs": {k: srepr(v) for k, v in vars(exc).items()}, "args": srepr(exc.args),
                                    "raised": repr(err)})
                 continue
             if not isinstance(out, ErrorClass):
@@ -169,7 +190,7 @@ def check(tier: str) -> Report:
                                   f"C19/{which}/expected-{'|'.join(sorted(case['allowed']))}-got-{out.name}",
                                   {"classifier": which, "abstract": x, "allowed": case["allowed"],
                                    "returned": out.name, "exception_class": type(exc).__name__,
-                                   "attrs": {k: repr(v) for k, v in vars(exc).items()}, "args": repr(exc.args)})
+                                   "attrs": {k: srepr(v) for k, v in vars(exc).items()}, "args": srepr(exc.args)})
             elif out.name != case["impl"]:
                 drift += 1
             cells.add((which, ci))
